@@ -17,6 +17,7 @@ import time
 import traceback
 
 from .choices import Choices, derive_seed, shrink
+from .procs import ChildTimeout
 
 VERIF_DIR = os.path.dirname(os.path.dirname(os.path.abspath(__file__)))
 DEFAULT_SEED = 20261003
@@ -101,9 +102,10 @@ def guarded_run(check, ch, render=False, wall_s=None):
     signal.setitimer(signal.ITIMER_REAL, wall_s)
     try:
         out = check.run(ch, render=render)
-    except WallTimeout:
+    except (WallTimeout, ChildTimeout):
         out = Outcome()
-        out.fail("hang", f"run did not finish within the {wall_s}s wall-clock backstop", "hang")
+        out.fail("hang", f"run (or one of its baseline / expectation children) did not finish within the wall-clock "
+                         f"backstop of {wall_s}s", "hang")
     finally:
         signal.setitimer(signal.ITIMER_REAL, 0)
         signal.signal(signal.SIGALRM, old)
@@ -255,7 +257,13 @@ def episode_child(check, base_seed, indices, selftest_n, sample_idx, wfd, system
         if hasattr(check, "setup_process"):
             check.setup_process()
         for idx in indices:
-            prefix = systematic[idx] if (systematic is not None and idx < len(systematic)) else None
+            prefix = None
+            if systematic is not None:
+                # a check may spread its systematic prefix cases over every STRIDE-th index, so that a reduced run
+                # count (VERIF_CASES) still mixes systematic and drawn cases
+                stride = getattr(check, "SYSTEMATIC_STRIDE", 1)
+                if idx % stride == 0 and idx // stride < len(systematic):
+                    prefix = systematic[idx // stride]
             try:
                 run_case(check, base_seed, idx, agg, selftest_n, idx in sample_idx, prefix)
             except BaseException:
